@@ -286,7 +286,7 @@ func c13(args []string) error {
 			c2, ok := o.(*geojson.Circle)
 			e := obj{"op": "ser", "iscircle": ok && err == nil, "samecentre": false, "sameradius": false, "text": clip(text, 300), "src": "rec"}
 			if ok {
-				e["samecentre"] = c2.Center() == c.Center()
+				e["samecentre"] = c2.Center() == c.Center() && c.Center() == (geometry.Point{X: lon, Y: lat}) // also: the centre is the one asked for
 				e["sameradius"] = math.Abs(c2.Meters()-c.Meters()) <= 1e-9*c.Meters()
 				if k%9 == 0 { // the object's own output: the same radius, bit for bit (kilometre and string spellings are converted)
 					e["sameradius"] = math.Float64bits(c2.Meters()) == math.Float64bits(c.Meters())
